@@ -308,3 +308,39 @@ Proof.
   rewrite isleaf_spec in Ll by assumption. destruct e0 as [|e0]; [|discriminate].
   eapply id_range_contains_struct; eassumption.
 Qed.
+
+(** * The leaf premise: history and witnesses
+    Before the repair f0ed951 ContainsPoint expanded the rectangle by 1 dblEpsilon and the
+    documented "CellFromPoint(p).ContainsPoint(p) is always true" was false; the two unit
+    points found by the search are kept here: they fail with the old margin and pass with
+    the current code. *)
+Definition containspoint_with_margin (m : PrimFloat.float) (c : s2_Cell) (p : s2_Point) : bool :=
+  let '(u, v, ok) := s2_faceXYZToUV (wrap_i64 (s2_Cell_face c)) p in
+  if negb ok then false else r2_Rect_ContainsPoint (r2_Rect_ExpandedByMargin (s2_Cell_uv c) m) (mk_r2_Point u v).
+
+Lemma containspoint_margin c p : s2_Cell_ContainsPoint c p = containspoint_with_margin eps c p.
+Proof. apply containspoint_unfold. Qed.
+
+Definition wit1 : s2_Point :=
+  mk_s2_Point (mk_r3_Vector (0x1.7eb16c58621d8p-3)%float (-0x1.c3f608ffa12fdp-1)%float (0x1.b975da6a83768p-2)%float).
+Definition wit2 : s2_Point :=
+  mk_s2_Point (mk_r3_Vector (0x1.dcfd5bce2da59p-4)%float (-0x1.d378ae57d57b2p-1)%float (0x1.904c1fabf622ep-2)%float).
+
+Lemma leaf_contains_old_refuted :
+  exists p, s2_CellID_IsValid (s2_cellIDFromPoint p) = true /\ s2_CellID_IsLeaf (s2_cellIDFromPoint p) = true /\
+    containspoint_with_margin (0x1p-52)%float (s2_CellFromCellID (s2_cellIDFromPoint p)) p = false.
+Proof. exists wit1. vm_compute. auto. Qed.
+
+Example leaf_contains_now :
+  s2_Cell_ContainsPoint (s2_CellFromCellID (s2_cellIDFromPoint wit1)) wit1 = true /\
+  s2_Cell_ContainsPoint (s2_CellFromCellID (s2_cellIDFromPoint wit2)) wit2 = true /\
+  s2_cellIDFromPoint wit1 = 9882600488333328173%Z.
+Proof. vm_compute. auto. Qed.
+
+(** the hypotheses of [id_range_contains] are satisfiable: wit1, its leaf and the level-10 ancestor *)
+Example id_range_contains_nonvacuous :
+  let l := s2_cellIDFromPoint wit1 in let c := s2_CellID_Parent l 10 in
+  s2_CellID_IsValid c = true /\ s2_CellID_IsValid l = true /\ s2_CellID_IsLeaf l = true /\
+  s2_CellID_Contains c l = true /\ s2_Cell_ContainsPoint (s2_CellFromCellID l) wit1 = true /\
+  s2_Cell_ContainsPoint (s2_CellFromCellID c) wit1 = true.
+Proof. vm_compute. repeat split. Qed.
